@@ -186,9 +186,8 @@ func LocAdd(l Term, k Term) Term {
 // defining axiom elem(b,k) = loc(obj b, off b + k), so that quantified facts about slice elements have a
 // syntactic trigger that survives arithmetic normalisation.
 func Elem(base, k Term) Term {
-	if k.S == "0" {
-		return base
-	}
+	// (no shortcut for k == 0: quantified element facts are triggered on (elem base k), so element 0 needs a ground
+	// elem term as well; the defining axiom gives elem(b, 0) = b)
 	return mk(SLoc, "elem", base, k)
 }
 
@@ -197,9 +196,6 @@ func Elem(base, k Term) Term {
 func ElemS(base, idx Term, sz int64) Term {
 	if sz == 1 {
 		return Elem(base, idx)
-	}
-	if idx.S == "0" {
-		return base
 	}
 	return mk(SLoc, "elemn", base, idx, IntLit(sz))
 }
